@@ -456,6 +456,7 @@ func RunC19(c *Ctx, r *Report) {
 	c.headerCtorRules(r, prefix, bf)
 	c.threeGPPRules(r, prefix, bf)
 	c.truncationRules(r, prefix)
+	c.builderTotality(r, prefix)
 }
 
 // containerResetRule: "each builder ... leaves earlier payloads untouched, for all prior container contents"
@@ -1161,6 +1162,36 @@ func (c *Ctx) constBytes(v ssa.Value) []int64 {
 		}
 	}
 	return out
+}
+
+// builderTotality: the other half of "oversize arguments give an error, not a truncated field": arguments that do
+// fit are accepted. No failure exit of the 3GPP builders that have one is reachable for arguments inside the
+// limits of the layout: a NAS PDU of 1..65535 octets (the 16-bit NAS length), a QFI list that together with the
+// fixed octets and the optional DSCP octet fits the one-octet length (0..250 entries with any flags).
+func (c *Ctx) builderTotality(r *Report, prefix string) {
+	nas := c.Method("message", "IKEPayloadContainer", "BuildEAP5GNAS")
+	qos := c.Method("message", "IKEPayloadContainer", "BuildNotify5G_QOS_INFO")
+	specs := map[*ssa.Function]*domSpec{}
+	var roots []*ssa.Function
+	byteSliceParam := func(fn *ssa.Function) string {
+		for _, p := range fn.Params[1:] {
+			if _, ok := p.Type().Underlying().(*types.Slice); ok {
+				return p.Name()
+			}
+		}
+		return ""
+	}
+	if nas != nil {
+		specs[nas] = &domSpec{ExactLenParam: -1, LenDom: map[string][2]int64{byteSliceParam(nas): {1, 65535}}, EnvErr: map[string]string{}}
+		roots = append(roots, nas)
+	}
+	if qos != nil {
+		specs[qos] = &domSpec{ExactLenParam: -1, LenDom: map[string][2]int64{byteSliceParam(qos): {0, 250}}, EnvErr: map[string]string{}}
+		roots = append(roots, qos)
+	}
+	c.domainTotalRule(r, prefix+"accepts-what-fits",
+		"no failure exit of BuildEAP5GNAS / BuildNotify5G_QOS_INFO is reachable for arguments that fit the layout: a NAS PDU of 1..65535 octets, a QFI list of 0..250 entries with any flags",
+		3, specs, roots)
 }
 
 // truncationRules: C19 rule 5.
